@@ -15,7 +15,12 @@ EXTENDS TraceBase, Guards, Ohsl
 VARIABLES l, ws
 vars == <<l, ws>>
 
-SamePr(x, y) == x.h = y.h /\ x.v = y.v
+\* equal projections: integer values, hash of the bit patterns and - where logged (inexact data) - the list of
+\* 16-hex-digit IEEE bit patterns themselves (zeros and NaNs normalised by the harness: their sign/payload is not demanded)
+SamePr(x, y) == /\ x.h = y.h /\ x.v = y.v
+                /\ Has(x, "x") = Has(y, "x")
+                /\ Has(x, "x") => x.x = y.x
+Inexact(e) == Has(e, "var") /\ e.var.pat \in {"inexact1", "inexact2", "inexactc1"}
 FormRow(row, f) == row.forms[CHOOSE k \in 1..Len(row.forms) : row.forms[k].f = f]
 
 FormOK(row, acc, t, fr) ==
@@ -39,6 +44,8 @@ CallOK(e) ==
         /\ Len(e.forms) = Len(row.forms)
         /\ {e.forms[k].f : k \in 1..Len(e.forms)} = FormNames(row)          \* every form executed, none invented
         /\ \A k \in 1..Len(e.forms) : FormOK(row, acc, e.t, e.forms[k])
+        \* inexact operands: every result carries its bit patterns (so that the comparison below is on the hex strings)
+        /\ Inexact(e) => \A k \in 1..Len(e.forms) : ~e.forms[k].panic => Has(e.forms[k].res, "x")
         /\ acc => \A j, k \in 1..Len(e.forms) :                              \* owned result = borrowed result
                     (j < k /\ ~e.forms[j].panic /\ ~e.forms[k].panic) => SamePr(e.forms[j].res, e.forms[k].res)
 
